@@ -269,6 +269,7 @@ func (w *world) hostile(c *bk.Client, cls string, rng *rand.Rand) (bool, error) 
 		b := make([]byte, 40)
 		rng.Read(b)
 		b[0] = 0x0F
+		b[1] = 38 // the declared length covers exactly the rest: a longer one would make the broker wait (rightly) for more bytes
 		c.SendRaw(b)
 	case "short-connect":
 		c.SendRaw(append(fixedHeader(1, 0, 3), 0, 4, 'M'))
